@@ -403,8 +403,15 @@ func TestRegressionUnknownMachineShape(t *testing.T) {
 	}
 	// the image is a good one: the same request with a real shape is answered correctly
 	okDoc, err, pan := golden(quietCtx(&endorse.Context{Image: image, Tdx: &tdx.EndorsementRequest{MachineShapes: []string{"c3-standard-4"}}}))
-	if pan != nil || err != nil || okDoc.Tdx == nil || len(okDoc.Tdx.Measurements) != 2 || okDoc.Tdx.Measurements[0].RamGib != 16 {
-		t.Fatalf("harness: the regression image is not accepted with a known shape: %v %v %v", okDoc, err, pan)
+	has16 := false
+	for _, m := range okDoc.GetTdx().GetMeasurements() {
+		has16 = has16 || m.GetRamGib() == 16
+	}
+	if pan != nil || err != nil || !has16 {
+		// the control request is not answered as expected (row order is free): nothing to conclude here
+		ev.Note("regression/unknown-shape: the control request with a known shape was not answered with a 16 GiB row (err %v, panic %v): replay not judged", err, pan)
+		ev.Class("unknown-shape", "inconclusive/regression-control-not-accepted")
+		return
 	}
 	names := []string{"c3-standard-5"}
 	g, err, pan := golden(quietCtx(&endorse.Context{Image: image, Tdx: &tdx.EndorsementRequest{MachineShapes: names}}))
